@@ -91,7 +91,7 @@ theorem inv_recStep_replay {cfg : Cfg} {s : St} {d : Disk} (h : Inv cfg s d) {r 
   · exact h.disk
   · exact h.mm
   · intro _
-    exact hb.of_same rfl p3 (Nat.le_refl _) (fun hr' => by
+    exact hb.of_same rfl (seqHi_le_of_not_window (not_trWindow_of_nojob hjob) (not_trWindow_of_nojob (by exact hjob)) p3) (Nat.le_refl _) (fun hr' => by
       have : s.phase = .running := hr'
       rw [hph] at this; cases this)
   · intro hr'
